@@ -233,6 +233,12 @@ class MultiTrackLargeVocabularyNotelikeTokeniser:
         if cur_time_bar > 0 and cur_bar_capacity_remaining > 0:
             _apply_rest(cur_bar_capacity_remaining)
 
+        # A note can still be sounding after the last event, the bars it reaches into belong to the input as well
+        end_time = max([cur_time] + [pairing[1][1].time + prv_shift for pairing in interleaved_pairings
+                                     if pairing[1][0].message_type == MessageType.NOTE_ON])
+        while cur_time < end_time:
+            _apply_rest(cur_bar_capacity_remaining)
+
         # Update state dictionary
         state_dict["cur_time"] = cur_time
         state_dict["cur_time_bar"] = cur_time_bar
